@@ -10,6 +10,7 @@ import (
 	"sync/atomic"
 	"time"
 
+	"github.com/vmware/go-ipfix/pkg/entities"
 	"github.com/vmware/go-ipfix/pkg/exporter"
 
 	"verifharness/common"
@@ -95,6 +96,66 @@ type c02fail struct {
 	kind, detail, caseName string
 }
 
+// c02refresh: the messages the exporter's own UDP template refresh puts on the wire are held to the same
+// standard as the ones SendSet writes. A second exporter with a 1 s refresh interval sends the templates of
+// up to 48 cases; the retransmissions that follow (real ticker) must each be one well-formed template
+// message whose record equals a template that was sent, and every template must come round. Only content is
+// judged promptly; "came round" has a 15 s allowance.
+func c02refresh(cases []e2eCase, msgs *int64, report func(c02fail)) {
+	if len(cases) > 48 {
+		cases = cases[:48]
+	}
+	peer, addr := newRawPeer("udp")
+	defer peer.close()
+	ep, err := exporter.InitExportingProcess(exporter.ExporterInput{CollectorAddress: addr, CollectorProtocol: "udp", ObservationDomainID: 0xC0FFEE, TempRefTimeout: 1})
+	if err != nil {
+		report(c02fail{"init-error", err.Error(), ""})
+		return
+	}
+	defer ep.CloseConnToCollector()
+	sent := map[uint16]refcodec.Template{}
+	names := map[uint16]string{}
+	for _, c := range cases {
+		id := ep.NewTemplateID()
+		if _, err := ep.SendSet(c.tmplSet(id)); err != nil {
+			report(c02fail{"send-error", fmt.Sprintf("template: SendSet failed: %v", err), c.name})
+			return
+		}
+		sent[id] = c.template(id)
+		names[id] = c.name
+	}
+	seen := map[uint16]int{}
+	deadline := time.Now().Add(15 * time.Second)
+	again := 0 // templates seen at least twice (first transmission + one refresh)
+	for again < len(sent) && time.Now().Before(deadline) {
+		peer.udp.SetReadDeadline(deadline)
+		b := make([]byte, 65536)
+		k, _, err := peer.udp.ReadFromUDP(b)
+		if err != nil {
+			break
+		}
+		atomic.AddInt64(msgs, 1)
+		p, err := refcodec.StrictCheck(b[:k])
+		if err != nil || p.SetID != 2 {
+			report(c02fail{"refresh-malformed", fmt.Sprintf("message #%d of a session that only sent templates is not a well-formed template message: %v (set id %d, %x)", len(seen), err, p.SetID, short(b[:k])), ""})
+			return
+		}
+		tt, rest, _, err := refcodec.ParseTemplateBody(p.Body)
+		want, ok := sent[tt.ID]
+		if err != nil || len(rest) != 0 || !ok || fmt.Sprint(tt.Fields) != fmt.Sprint(want.Fields) {
+			report(c02fail{"refresh-template", fmt.Sprintf("template %d on the wire (transmission #%d) is %+v (err %v, %d trailing bytes), the template handed to SendSet was %+v", tt.ID, seen[tt.ID]+1, tt.Fields, err, len(rest), want.Fields), names[tt.ID]})
+			return
+		}
+		seen[tt.ID]++
+		if seen[tt.ID] == 2 {
+			again++
+		}
+	}
+	if again < len(sent) {
+		report(c02fail{"refresh-missing", fmt.Sprintf("only %d of %d templates were retransmitted within 15 s of a 1 s refresh interval", again, len(sent)), ""})
+	}
+}
+
 // c02session runs a slice of cases over one exporter/raw peer pair.
 func c02session(proto string, cases []e2eCase, msgs *int64, report func(c02fail)) {
 	peer, addr := newRawPeer(proto)
@@ -112,7 +173,14 @@ func c02session(proto string, cases []e2eCase, msgs *int64, report func(c02fail)
 	if proto == "udp" {
 		limit = 65507
 	}
-	for _, c := range cases {
+	reused := entities.NewSet(false) // every other set of the session is built on this one after ResetSet
+	pick := func(i int) entities.Set {
+		if i%2 == 1 {
+			return reused
+		}
+		return nil
+	}
+	for ci, c := range cases {
 		id := ep.NewTemplateID()
 		t := c.template(id)
 		check := func(what string, n int, err error, isTemplate bool, recs [][][]byte) bool {
@@ -166,7 +234,7 @@ func c02session(proto string, cases []e2eCase, msgs *int64, report func(c02fail)
 			}
 			return true
 		}
-		n, err := ep.SendSet(c.tmplSet(id))
+		n, err := ep.SendSet(c.tmplSetOn(pick(ci), id))
 		if !check("template", n, err, true, nil) {
 			return // the stream may be misaligned now; stop this session
 		}
@@ -176,7 +244,7 @@ func c02session(proto string, cases []e2eCase, msgs *int64, report func(c02fail)
 			for _, r := range g {
 				size += len(refcodec.EncodeRecord(t, r))
 			}
-			set := c.dataSet(id, g, gi)
+			set := c.dataSetOn(pick(gi+ci), id, g, gi)
 			n, err := ep.SendSet(set)
 			if size > limit {
 				if err == nil {
@@ -246,6 +314,18 @@ func runC02(tier, replay string) int {
 				c02session(proto, mine, &msgs, report(proto))
 			}(mine)
 		}
+		if proto == "udp" {
+			// enterprise-specific and IANA elements alike: the cases are ordered by element, take every k-th
+			var pick []e2eCase
+			for i := 0; i < len(cases); i += len(cases)/48 + 1 {
+				pick = append(pick, cases[i])
+			}
+			wg.Add(1)
+			go func() {
+				defer wg.Done()
+				c02refresh(pick, &msgs, report("udp-refresh"))
+			}()
+		}
 		wg.Wait()
 	}
 	fmt.Printf("C02 %s: templates=%d messages parsed=%d violations=%d\n", tier, total, msgs, rep.Violations())
@@ -253,7 +333,7 @@ func runC02(tier, replay string) int {
 	ev.Coverage = common.Coverage{
 		"states": total, "transitions": msgs, "traces_validated_against_impl": msgs, "samples": samples,
 		"evaluations": msgs, "distinct_nontrivial": total,
-		"rule":       "every template of arity 1..2 (thorough 3) over a 28-element alphabet (one element per supported type and registry: IANA, reverse 29305, Antrea 56506, user-registered 55555) with the cross product of per-type boundary values packed into data sets of 1,2,3,... records; variable-length values that exactly fill a message and one byte less; record counts fit-1 and fit; thorough: the arity-1 template of every registry element of a supported type with all boundary values; each sent through a real ExportingProcess over real loopback tcp and udp sockets to a raw peer socket, every message read from the wire parsed by the independent refcodec: version 10, header length = bytes received = SendSet's return value, one set covering the rest, set id 2 / template id, template record with enterprise bit and PEN exactly for enterprise elements, every data field at template width or correctly length-prefixed, values equal to the values given. distinct_nontrivial = distinct templates",
+		"rule":       "every template of arity 1..2 (thorough 3) over a 28-element alphabet (one element per supported type and registry: IANA, reverse 29305, Antrea 56506, user-registered 55555) with the cross product of per-type boundary values packed into data sets of 1,2,3,... records; variable-length values that exactly fill a message and one byte less; record counts fit-1 and fit; thorough: the arity-1 template of every registry element of a supported type with all boundary values; each sent through a real ExportingProcess over real loopback tcp and udp sockets to a raw peer socket, every message read from the wire parsed by the independent refcodec: version 10, header length = bytes received = SendSet's return value, one set covering the rest, set id 2 / template id, template record with enterprise bit and PEN exactly for enterprise elements, every data field at template width or correctly length-prefixed, values equal to the values given; over udp additionally one exporter with a 1 s refresh interval whose retransmitted templates (48 templates spread over the alphabet) are parsed the same way and compared with the templates handed to SendSet. distinct_nontrivial = distinct templates",
 		"exhaustive": true, "messages": msgs,
 	}
 	ev.Assumptions = []string{"sockets and kernel scheduling are real; inputs are enumerated, schedules are whatever the OS gives", "a 10 s read deadline on the peer socket turns a missing message into a violation (typical latency is 0.1 ms)"}
